@@ -140,7 +140,7 @@ func resolveUDP(p *Prog) *udpRoles {
 		return r
 	}
 	if r.closer == nil {
-		miss("no function closes the shared socket")
+		miss("no function calls Close on the listener's socket field " + r.pConn + " (closing another value - e.g. the raw socket under a batching wrapper - leaves what the listener owns open: the wrapper's goroutine keeps running and queued writes are not flushed)")
 		return r
 	}
 	for _, in := range findU(r.getConn, func(in ssa.Instruction) bool { _, ok := in.(*ssa.Call); return ok }) {
